@@ -91,6 +91,12 @@ def plan(tier, seed):
         for fn, t in (("water.xyz", "pdb"), ("POSCAR.water", "xyz"), ("FCIDUMP.molpro.h2", "xyz"), ("water_trajectory.xyz", "sdf")):
             cases.append({"src": fn, "srcfmt": None, "explicit_in": False, "target": t, "dirpat": pat,
                           "opts": {"c": False, "m": fn == "water_trajectory.xyz", "i": False, "o": False}})
+    # input names containing characters that shells and glob() treat as patterns, next to a file the pattern would match: the file
+    # NAMED is converted, as by the API
+    for name, sibling in (("scan[3].xyz", "scan3.xyz"), ("[Zn(H2O)6].xyz", "Z.xyz"), ("frame?.xyz", "frame1.xyz"), ("all*.xyz", "all_frames.xyz")):
+        for t, m in (("pdb", False), ("sdf", True), ("xyz", False)):
+            cases.append({"src": "water.xyz", "srcfmt": None, "explicit_in": False, "target": t, "globname": [name, sibling],
+                          "opts": {"c": False, "m": m, "i": False, "o": False}})
     # the same input NAME converted again after its content was replaced (a script looping over a scratch file): convert() called
     # twice in one process must use the content that is there at the time of the call, as the API calls do
     for t in ("mol2", "pdb", "sdf", "xyz"):
@@ -282,14 +288,16 @@ def run_case(case):
                 os.makedirs(os.path.join(root, which), exist_ok=True)
                 shutil.copy(src, os.path.join(root, which, outname))
                 src_for[which] = os.path.join(root, which, outname)
-        sub = case.get("dirpat", "")
+        sub = case.get("dirpat", "") or ("g" if case.get("globname") else "")
         if sub:
-            counters["dirname_cases"] = 1
+            counters["globname_cases" if case.get("globname") else "dirname_cases"] = 1
             for which in ("cli", "api", "cv"):
                 os.makedirs(os.path.join(root, which, sub), exist_ok=True)
-                src_for[which] = os.path.join(root, which, sub, os.path.basename(src))
+                src_for[which] = os.path.join(root, which, sub, case["globname"][0] if case.get("globname") else os.path.basename(src))
                 shutil.copy(src, src_for[which])
-            label = f"{sub}/{label}"
+                if case.get("globname"):
+                    shutil.copy(os.path.join(bootstrap.DATA_DIR, "s66_4114_02WaterMeOH.xyz"), os.path.join(root, which, sub, case["globname"][1]))
+            label = f"{sub}/{case['globname'][0]} (next to {case['globname'][1]})" if case.get("globname") else f"{sub}/{label}"
         infmt = srcfmt if (explicit_in or (opts["i"] and srcfmt)) else None
         outfmt = target if give_o else None
         args = []
